@@ -4,7 +4,7 @@
    [Document w s v]: whitespace, one value, whitespace. *)
 From Coq Require Import NArith ZArith List Bool.
 From Qv Require Import gen.Tables_json JsonModel JsonSpec JsonProofsBase JsonProofsStr JsonProofsNum JsonProofsParse
-  JsonProofsComplete JsonProofsDoc JsonProofsCst JsonProofsInt JsonProofsC06.
+  JsonProofsComplete JsonProofsDoc JsonProofsCst JsonProofsInt JsonProofsC06 JsonProofsPrefix.
 Import ListNotations.
 Local Open Scope N_scope.
 
@@ -54,11 +54,27 @@ Theorem c07_suffix_rejected : forall w c ws1 x rest,
 Proof. exact suffix_rejected_all. Qed.
 Print Assumptions c07_suffix_rejected.
 
-(* stated, NOT proved (correspondence only: every proper prefix / every swapped or removed closing
-   bracket of generated documents is run against the C++ and the model on every check) *)
-Definition c07_prefix_rejected_stmt : Prop :=
-  forall w c k, cval_wf w c = true -> reals_ok c -> is_container c = true -> (k < length (cprint w c))%nat ->
+(* every proper prefix of a printed container document is rejected -- in particular the document
+   without its last closing bracket.  [reals_ok2] adds to [reals_ok] that a truncated real numeral,
+   if the scanner accepts it at all, is taken whole (the scanner on reals is C09's subject). *)
+Theorem c07_prefix_rejected : forall w c k,
+  cval_wf w c = true -> reals_ok2 w c -> is_container c = true -> (k < length (cprint w c))%nat ->
   parse w (firstn k (cprint w c)) = JOk JUndef.
+Proof. exact prefix_rejected_all. Qed.
+Print Assumptions c07_prefix_rejected.
+
+(* non-vacuity: every one of the proper prefixes of the example document of C06 *)
+Theorem c07_prefix_example : forall k, (k < length (cprint 1 ex_tree))%nat -> parse 1 (firstn k (cprint 1 ex_tree)) = JOk JUndef.
+Proof. exact ex_tree_prefixes. Qed.
+Print Assumptions c07_prefix_example.
+
+(* stated, NOT proved (correspondence only: every structural closing bracket of every generated
+   document is swapped / removed and every separator blanked on every run of the check) *)
+Definition c07_wrong_bracket_rejected_stmt : Prop :=
+  forall w c pre post b, cval_wf w c = true -> reals_ok c -> is_container c = true ->
+  cprint w c = pre ++ b :: post -> (b = jc_esquare \/ b = jc_ecurly) ->
+  (* b a structural bracket (not inside a string) *) True ->
+  parse w (pre ++ post) = JOk JUndef.
 
 (* the inputs of D2 and D61 *)
 Example c07_d2_rejected : parse 0 [91; 91; 49; 32; 50; 93] = JOk JUndef /\ parse 0 [123; 34; 97; 34; 58; 91; 49; 32; 50; 125] = JOk JUndef.
